@@ -461,8 +461,10 @@ Proof. reflexivity. Qed.
 Lemma bi_xpcall n fr args s :
   builtin_call (S n) fr BXpcall args s =
   catch (bind (call n ((None, None) :: fr) (nth 0 args VNil) [] s) (fun vs s' => Ret (VBool true :: vs) s'))
-        (fun e s' => bind (call n ((None, None) :: fr) (nth 1 args VNil) [e] s')
-                          (fun hv s'' => Ret [VBool false; first hv] s'')).
+        (fun e s' => catch (bind (call n ((None, None) :: fr) (nth 1 args VNil) [e] s')
+                                 (fun hv s'' => Ret [VBool false; first hv] s''))
+                           (fun e2 s2 => if dv_handler_err (dv s2) then Ret [VBool false; e2] s2
+                                         else Ret [VBool false; VStr s_error_in_error_handling] s2)).
 Proof. reflexivity. Qed.
 
 Lemma bi_rawequal n fr args s :
